@@ -76,7 +76,7 @@ FUNCS = ['exp', 'sin', 'cos', 'sinh', 'cosh', 'expm1']
 
 def jobs(tier, seed):
     out = []
-    for op in ('add', 'sub', 'rsub', 'mul', 'rmul', 'neg', 'conjugate', 'dot', 'radd'):
+    for op in ('add', 'sub', 'rsub', 'mul', 'rmul', 'neg', 'conjugate', 'dot', 'radd', 'iadd', 'isub', 'imul', 'imul-self'):
         out.append(('ring-%s' % op, dict(kind='ring', name=op, k=0)))
     for k in range(-3, 6):
         out.append(('pow-%d' % k, dict(kind='pow', name='pow', k=k)))
@@ -215,6 +215,25 @@ def ring(job, mc, op):
             res, fu, fv = -x, U(x1, x2).neg(), V(x1, x2).neg()
         elif op == 'conjugate':
             res, fu, fv = x.conjugate(), V(x1, x2), U(x1, x2)
+        elif op in ('iadd', 'isub', 'imul', 'imul-self'):
+            # augmented assignment (falls back to the binary operator when the class defines no in-place method)
+            res = mc.Bicomplex(x.z1, x.z2)
+            if op == 'iadd':
+                res += y
+                fu, fv = U(x1, x2) + U(y1, y2), V(x1, x2) + V(y1, y2)
+            elif op == 'isub':
+                res -= y
+                fu, fv = U(x1, x2) - U(y1, y2), V(x1, x2) - V(y1, y2)
+            elif op == 'imul':
+                res *= y
+                fu, fv = U(x1, x2) * U(y1, y2), V(x1, x2) * V(y1, y2)
+            elif op == 'imul-self':
+                res *= res
+                res *= x
+                fu, fv = U(x1, x2) * U(x1, x2) * U(x1, x2), V(x1, x2) * V(x1, x2) * V(x1, x2)
+            else:
+                res **= 2
+                fu, fv = U(x1, x2) * U(x1, x2), V(x1, x2) * V(x1, x2)
         else:
             res, fu, fv = x.dot(y), U(x1, x2) * U(y1, y2), V(x1, x2) * V(y1, y2)
     job.paths += 1
@@ -482,6 +501,18 @@ def _ratnorm(t):
     return None
 
 
+def _mentions(t, prefix, _seen=None):
+    _seen = set() if _seen is None else _seen
+    if t.get_id() in _seen:
+        return False
+    _seen.add(t.get_id())
+    if z3.is_app(t):
+        if t.decl().name().startswith(prefix):
+            return True
+        return any(_mentions(ch, prefix, _seen) for ch in t.children())
+    return False
+
+
 def _identically_zero(t):
     """True when t is 0 as a rational function of its atoms (decided by normalisation; denominators are assumed non-zero)"""
     try:
@@ -515,11 +546,42 @@ class Canon:
             self.eqmemo[key] = self._equal_uncached(X, Y, arg)
         return self.eqmemo[key]
 
+    def _resolve_ites(self, t):
+        """replace If(c, a, b) by a or b when the solver proves pre => c or pre => not c (the conditions met here are the
+        comparisons of the clip in _arg_c and sign tests: cheap queries); counted as solver queries of the job"""
+        key = ('ite', t.get_id())
+        if key in self.memo:
+            return self.memo[key]
+        out = t
+        if z3.is_app(t) and t.num_args():
+            kids = [self._resolve_ites(ch) for ch in t.children()]
+            if t.decl().kind() == z3.Z3_OP_ITE:
+                c = kids[0]
+                for val, pick in ((c, kids[1]), (z3.Not(c), kids[2])):
+                    sv = z3.Solver()
+                    sv.set('timeout', 20000)
+                    sv.add(*self.pre)
+                    sv.add(z3.Not(val))
+                    self.job.queries += 1
+                    if str(sv.check()) == 'unsat':
+                        out = pick
+                        break
+                else:
+                    out = z3.If(*kids)
+            else:
+                out = t.decl()(*kids)
+        self.memo[key] = out
+        return out
+
     def _equal_uncached(self, X, Y, arg):
         dx = z3.simplify(X - arg.r, som=True)
         dy = z3.simplify(Y - arg.i, som=True)
         if z3.is_rational_value(dx) and z3.is_rational_value(dy):
             return dx.as_fraction() == 0 and dy.as_fraction() == 0
+        # case distinctions decided by the region (clip bounds, signs), then a rational-function identity by normalisation
+        X2, Y2 = self._resolve_ites(X), self._resolve_ites(Y)
+        if _identically_zero(z3.simplify(X2 - arg.r)) and _identically_zero(z3.simplify(Y2 - arg.i)):
+            return True
         s = z3.Solver()
         s.set('timeout', 240000)
         s.add(*self.pre)
@@ -679,12 +741,14 @@ def principal(job, mc, name, k):
                 nu, nv = (one, one) if name == 'reciprocal' else ((C(z3.RealVal('3/4'), z3.RealVal(0)),) * 2 if name == 'rdivision'
                                                                   else (U(*yy), V(*yy)))
                 targets = (nu * eu, nv * ev)    # 1/w is DEFINED as exp(-log w)
+        # merged assignments (out[mask] = ...) leave If terms whose condition is a path condition: resolve them first
+        r1 = C(cn._resolve_ites(r1.r), cn._resolve_ites(r1.i))
+        r2 = C(cn._resolve_ites(r2.r), cn._resolve_ites(r2.i))
         c1, c2 = cn.c(r1), cn.c(r2)
         ru, rv = U(c1, c2), V(c1, c2)
         def _main_holds():
-            lhs, rhs = ru, targets[0]
-            r, _s, _dt = job._solve(pre + [z3.Not(z3.And(z3.simplify(lhs.r - rhs.r, som=True) == 0, z3.simplify(lhs.i - rhs.i, som=True) == 0))], 20000)
-            return r == 'unsat'
+            # the branch for non-invertible numbers forms (z1 -+ i z2)**-1 exactly: no exponential is left in the result
+            return _mentions(ru.r, 'uf_cexp_') or _mentions(ru.i, 'uf_cexp_')
         if name in ('reciprocal', 'division', 'rdivision') and not _main_holds():
             # branch for non-invertible numbers: (z1 -+ i z2)**-1 was formed exactly; claim result * w == numerator
             nu, nv = (one, one) if name == 'reciprocal' else ((C(z3.RealVal('3/4'), z3.RealVal(0)),) * 2 if name == 'rdivision' else (U(*yy), V(*yy)))
@@ -809,6 +873,24 @@ def numeric_deviation(mc, op, k=0, trials=40, seed=0):
             res, fu, fv = (x * y if op != 'dot' else x.dot(y)), u * yu, v * yv
         elif op == 'rmul':
             res, fu, fv = s * x, s * u, s * v
+        elif op in ('iadd', 'isub', 'imul', 'imul-self'):
+            res = mc.Bicomplex(x.z1, x.z2)
+            if op == 'iadd':
+                res += y
+                fu, fv = u + yu, v + yv
+            elif op == 'isub':
+                res -= y
+                fu, fv = u - yu, v - yv
+            elif op == 'imul':
+                res *= y
+                fu, fv = u * yu, v * yv
+            elif op == 'imul-self':
+                res *= res
+                res *= x
+                fu, fv = u ** 3, v ** 3
+            else:
+                res **= 2
+                fu, fv = u * u, v * v
         elif op == 'neg':
             res, fu, fv = -x, -u, -v
         elif op == 'conjugate':
